@@ -185,6 +185,13 @@ where
             self.buffer.extend(buf);
             Ok(buf.len())
         } else {
+            if self.buffer.len() == total_len && total_len > PDU_PDV_HEADER_SIZE {
+                // the buffer already holds a complete PDU:
+                // send it first, so that bytes can be taken from `buf`
+                // (returning `Ok(0)` would make `write_all` fail)
+                self.dispatch_pdu()?;
+                return self.write(buf);
+            }
             // fill in the rest of the buffer, send PDU,
             // and leave out the rest for subsequent writes
             let buf = &buf[..total_len - self.buffer.len()];
@@ -580,6 +587,12 @@ pub mod non_blocking {
                                     if written == this.buffer.len() {
                                         // If we wrote the whole buffer, reset `self.buffer`
                                         this.buffer.truncate(PDU_PDV_HEADER_SIZE);
+                                        if consumed == 0 && total_len > PDU_PDV_HEADER_SIZE {
+                                            // the buffer was already full before this call,
+                                            // so nothing was taken from `buf` yet: do it now
+                                            // (returning `Ok(0)` would make `write_all` fail)
+                                            return self.poll_write(cx, buf);
+                                        }
                                         return Poll::Ready(Ok(consumed));
                                     }
                                 }
@@ -622,6 +635,14 @@ pub mod non_blocking {
                                     // If we wrote the whole buffer, reset `self.buffer` and change state back to ready
                                     this.buffer.truncate(PDU_PDV_HEADER_SIZE);
                                     this.state = WriteState::Ready;
+                                    if consumed == 0
+                                        && (this.max_pdu_length + PDU_HEADER_SIZE) as usize
+                                            > PDU_PDV_HEADER_SIZE
+                                    {
+                                        // the buffer was already full before the write started,
+                                        // so nothing was taken from `buf` yet: do it now
+                                        return self.poll_write(cx, buf);
+                                    }
                                     return Poll::Ready(Ok(consumed));
                                 }
                             }
